@@ -219,7 +219,7 @@ def _run_system(unit, rec):
                     if fulldim and mg is not None and mg >= -delta:
                         dist = 0.0
                     else:
-                        dist = O.box_lsq(Abar, t, lo, hi, c0=c0)[0] if n <= 7 else O.box_lsq_certified(Abar, t, lo, hi, c0=c0)[2]
+                        dist = O.box_lsq_bounds(Abar, t, lo, hi, c0=c0, max_enum=7)[2]  # rigorous LOWER bound of the distance
                     if dist > delta:
                         _v(rec, "c", dict(sig, target=kind), "target accepted although no in-bound intensities reproduce it (distance %.3g, extent %.3g)" % (dist, extent),
                                       case, observed=True, expected=dict(target=t, distance=dist), script=_script(spec, [t], relative, False))
